@@ -18,6 +18,8 @@ import (
 	"time"
 
 	"github.com/go-kit/log"
+	"go.universe.tf/metallb/internal/bgp"
+	metallbconfig "go.universe.tf/metallb/internal/config"
 	vw "go.universe.tf/metallb/internal/verifworld"
 	"pgregory.net/rapid"
 )
@@ -189,7 +191,7 @@ func c19Model(c c19Case, submitted []int, tieMask uint64) (attempts []c19Attempt
 
 func TestVerifC19Debounce(t *testing.T) {
 	vw.Run(t, vw.Options{Property: "C19", Engine: "frr-debouncer",
-		Rule: "1..12 submissions (new configuration, identical resubmission, re-apply request, older configuration) at inter-arrival times chosen around the debounce (3 s) and retry (5 s) intervals (+-1 ns, equal, halves, multiples), a finite failure pattern of the reload action and an action duration of 0..4 s, all on the virtual clock of testing/synctest; non-trivial = >=1 failure consumed and >=2 submissions",
+		Rule:        "1..12 submissions (new configuration, identical resubmission, re-apply request, older configuration) at inter-arrival times chosen around the debounce (3 s) and retry (5 s) intervals (+-1 ns, equal, halves, multiples), a finite failure pattern of the reload action and an action duration of 0..4 s, all on the virtual clock of testing/synctest; non-trivial = >=1 failure consumed and >=2 submissions",
 		Assumptions: []string{"go1.26.8 testing/synctest: the code under test (time, channels, select) behaves as under go1.23", "when a submission and the timer are due at the same instant either order of the select is accepted"}},
 		genC19,
 		func(c c19Case, tr *vw.Trace) *vw.Violation {
@@ -274,7 +276,7 @@ func TestVerifC19Reload(t *testing.T) {
 	file := dir + "/frr.conf"
 	t.Setenv("FRR_CONFIG_FILE", file)
 	vw.Run(t, vw.Options{Property: "C19", Engine: "frr-reload",
-		Rule: "as frr-debouncer, with the real generateAndReloadConfigFile as the action and a scripted reloader signal that fails per the pattern; after the failures stop the reloader must have been signalled successfully while the file held the rendering of the most recently submitted configuration; non-trivial = >=1 failed signal",
+		Rule:        "as frr-debouncer, with the real generateAndReloadConfigFile as the action and a scripted reloader signal that fails per the pattern; after the failures stop the reloader must have been signalled successfully while the file held the rendering of the most recently submitted configuration; non-trivial = >=1 failed signal",
 		Assumptions: []string{"go1.26.8 testing/synctest", "the file on disk is what FRR loads when signalled"}},
 		func(rt *rapid.T) c19Case {
 			c := genC19(rt)
@@ -359,4 +361,235 @@ func TestVerifC19Reload(t *testing.T) {
 			}
 			return vw.Violationf("never-loaded", "a configuration was submitted and the failures stopped (pattern %v), but the reloader was never signalled successfully (%d signals, %d failed)", c.Fails, len(sigs), failed)
 		})
+}
+
+// ---- the whole session manager in front of the debouncer ------------------------------------------
+//
+// The submissions are the ones the real sessionManager produces (NewSession / Set / Close /
+// SyncBFDProfiles / SyncExtraInfo each assemble a configuration and hand it to the debouncer), so
+// a submission that shares memory with an earlier one - and therefore "equals" it when the debouncer
+// compares - is within reach. Oracle: differential against a fresh manager that is given only the
+// final state and renders it directly.
+
+type c19mOp struct {
+	Kind    string `json:"kind"` // new | set | close | bfd | extra | sleep
+	Session int    `json:"session,omitempty"`
+	Advs    int    `json:"advs,omitempty"`    // set: 0 = the session's own list, 1 = its prior list, 2 = empty
+	Variant int    `json:"variant,omitempty"` // bfd / extra: which value
+	DelayNs int64  `json:"delay_ns,omitempty"`
+}
+
+type c19mCase struct {
+	Sessions []vw.BGPSession `json:"sessions"`
+	Prior    [][]vw.BGPAdv   `json:"prior"`
+	Ops      []c19mOp        `json:"ops"`
+	Fails    []bool          `json:"fails"`
+}
+
+var c19mBFD = []map[string][]uint32{
+	{},
+	{"p1": {100, 100}},
+	{"p1": {200, 100}},
+	{"p1": {100, 300}},
+	{"p1": {100, 100}, "p2": {50, 50}},
+	{"p2": {50, 50}},
+	{"p2": {60, 50}},
+}
+
+var c19mExtra = []string{"", "# extra A", "# extra B"}
+
+func c19mProfiles(v int) map[string]*metallbconfig.BFDProfile {
+	out := map[string]*metallbconfig.BFDProfile{}
+	for name, iv := range c19mBFD[v%len(c19mBFD)] {
+		rx, tx := iv[0], iv[1]
+		out[name] = &metallbconfig.BFDProfile{Name: name, ReceiveInterval: &rx, TransmitInterval: &tx}
+	}
+	return out
+}
+
+func genC19M(rt *rapid.T) c19mCase {
+	c := c19mCase{Sessions: vw.GenBGPSessions(rt, false)}
+	for _, s := range c.Sessions {
+		c.Prior = append(c.Prior, vw.GenPriorAdvs(rt, s.Advs))
+	}
+	delays := []int64{0, 0, 1, int64(time.Second), int64(3*time.Second) - 1, int64(3 * time.Second), int64(3*time.Second) + 1, int64(5 * time.Second), int64(9 * time.Second)}
+	for i, n := 0, rapid.IntRange(2, 14).Draw(rt, "nops"); i < n; i++ {
+		op := c19mOp{Session: rapid.IntRange(0, 5).Draw(rt, "session")}
+		switch k := rapid.IntRange(0, 11).Draw(rt, "opK"); {
+		case k <= 1:
+			op.Kind = "new"
+		case k <= 4:
+			op.Kind, op.Advs = "set", rapid.IntRange(0, 2).Draw(rt, "advs")
+		case k == 5:
+			op.Kind = "close"
+		case k <= 8:
+			op.Kind, op.Variant = "bfd", rapid.IntRange(0, len(c19mBFD)-1).Draw(rt, "bfd")
+		case k == 9:
+			op.Kind, op.Variant = "extra", rapid.IntRange(0, len(c19mExtra)-1).Draw(rt, "extra")
+		default:
+			op.Kind = "sleep"
+		}
+		op.DelayNs = rapid.SampledFrom(delays).Draw(rt, "delay")
+		c.Ops = append(c.Ops, op)
+	}
+	for i, n := 0, rapid.IntRange(0, 4).Draw(rt, "nfails"); i < n; i++ {
+		c.Fails = append(c.Fails, rapid.IntRange(0, 2).Draw(rt, "fail") == 0)
+	}
+	return c
+}
+
+func runC19M(t *testing.T, c c19mCase, tr *vw.Trace) (viol *vw.Violation) {
+	if len(c.Sessions) == 0 {
+		return nil
+	}
+	osHostname = func() (string, error) { return "verif-host", nil }
+	newMgr := func(buffered int) *sessionManager {
+		return &sessionManager{sessions: map[string]*session{}, bfdProfiles: []BFDProfile{}, reloadConfig: make(chan reloadEvent, buffered), logLevel: "informational"}
+	}
+	advsOf := func(i, which int) []*bgp.Advertisement {
+		s := c.Sessions[i]
+		switch which {
+		case 1:
+			s.Advs = c.Prior[i]
+		case 2:
+			s.Advs = nil
+		}
+		return VerifAdvs(s, nil)
+	}
+	// final state, tracked by the harness
+	alive := map[int]bool{}
+	lastAdvs := map[int]int{}
+	bfd, extra := 0, 0
+	submitted := 0
+	var applied []string
+	failed := 0
+	synctest.Test(t, func(t *testing.T) {
+		sm := newMgr(0)
+		n := 0
+		body := func(cfg *frrConfig) error {
+			text, err := templateConfig(cfg)
+			if err != nil {
+				return err
+			}
+			fail := n < len(c.Fails) && c.Fails[n]
+			n++
+			if fail {
+				failed++
+				return errors.New("reload failed")
+			}
+			applied = append(applied, text)
+			return nil
+		}
+		debouncer(body, sm.reloadConfig, debounceTimeout, failureTimeout, log.NewNopLogger())
+		handles := map[int]bgp.Session{}
+		for _, op := range c.Ops {
+			time.Sleep(time.Duration(op.DelayNs))
+			i := op.Session % len(c.Sessions)
+			switch op.Kind {
+			case "new":
+				if alive[i] {
+					continue
+				}
+				h, err := sm.NewSession(log.NewNopLogger(), VerifParams(c.Sessions[i]))
+				if err != nil {
+					viol = vw.Violationf("new-session-error", "%v", err)
+					return
+				}
+				handles[i], alive[i], lastAdvs[i] = h, true, 2
+				submitted++
+			case "set":
+				if !alive[i] {
+					continue
+				}
+				if err := handles[i].Set(advsOf(i, op.Advs)...); err != nil {
+					continue // refused (conflicting local preferences across the lists): nothing changes
+				}
+				lastAdvs[i] = op.Advs
+				submitted++
+			case "close":
+				if !alive[i] {
+					continue
+				}
+				if err := handles[i].Close(); err != nil {
+					viol = vw.Violationf("close-error", "%v", err)
+					return
+				}
+				delete(alive, i)
+				submitted++
+			case "bfd":
+				if err := sm.SyncBFDProfiles(c19mProfiles(op.Variant)); err != nil {
+					viol = vw.Violationf("bfd-error", "%v", err)
+					return
+				}
+				if op.Variant != bfd {
+					tr.Class("bfd-profiles-changed")
+				}
+				bfd = op.Variant
+				submitted++
+			case "extra":
+				if err := sm.SyncExtraInfo(c19mExtra[op.Variant%len(c19mExtra)]); err != nil {
+					viol = vw.Violationf("extra-error", "%v", err)
+					return
+				}
+				extra = op.Variant
+				submitted++
+			}
+		}
+		// let the window, every retry and one more window elapse
+		time.Sleep(time.Duration(len(c.Fails)+3)*failureTimeout + 3*debounceTimeout)
+		close(sm.reloadConfig)
+		synctest.Wait()
+	})
+	if viol != nil || submitted == 0 {
+		return viol
+	}
+	// reference: a fresh manager given only the final state
+	ref := newMgr(4096)
+	for i := range c.Sessions {
+		if !alive[i] {
+			continue
+		}
+		h, err := ref.NewSession(log.NewNopLogger(), VerifParams(c.Sessions[i]))
+		if err != nil {
+			return nil
+		}
+		if err := h.Set(advsOf(i, lastAdvs[i])...); err != nil {
+			return nil // the final combination is one the manager refuses when built from scratch: no reference
+		}
+	}
+	if err := ref.SyncBFDProfiles(c19mProfiles(bfd)); err != nil {
+		return nil
+	}
+	if err := ref.SyncExtraInfo(c19mExtra[extra%len(c19mExtra)]); err != nil {
+		return nil
+	}
+	cfg, err := ref.createConfig()
+	if err != nil {
+		return nil
+	}
+	want, err := templateConfig(cfg)
+	if err != nil {
+		return nil
+	}
+	if failed > 0 {
+		tr.Class("reload-failures-consumed")
+	}
+	if submitted >= 3 {
+		tr.NonTrivial()
+	}
+	if len(applied) == 0 {
+		return vw.Violationf("nothing-applied", "%d configuration(s) were submitted by the session manager and none was applied although the failures stopped", submitted)
+	}
+	if got := applied[len(applied)-1]; got != want {
+		return vw.Violationf("latest-not-applied", "after %d submissions the last applied configuration differs from the rendering of the final state (sessions alive %v, BFD variant %d, extra %d):\n--- last applied\n%s\n--- final state\n%s", submitted, alive, bfd, extra, got, want)
+	}
+	return nil
+}
+
+func TestVerifC19Manager(t *testing.T) {
+	vw.Run(t, vw.Options{Property: "C19", Engine: "frr-manager",
+		Rule:        "2..14 calls into the real FRR sessionManager (NewSession, Set with the session's own / an earlier / an empty advertisement list, Close, SyncBFDProfiles over 7 profile sets incl. same-size edits, SyncExtraInfo) at inter-arrival times around the 3 s debounce and 5 s retry intervals, with the real debouncer and a reload action that renders the configuration and fails per a finite pattern, on the virtual clock; after the failures stop the last applied rendering must equal what a fresh manager renders for the final state; non-trivial = >=3 submissions",
+		Assumptions: []string{"go1.26.8 testing/synctest", "a Set the manager refuses (conflicting local preferences) changes nothing"}},
+		genC19M,
+		func(c c19mCase, tr *vw.Trace) *vw.Violation { return runC19M(t, c, tr) })
 }
